@@ -153,6 +153,11 @@ fn m_leaf(l: &Leaf) -> String {
     format!("{}{}{}{}{}", lhs, sep, l.op.text(), sep, m_rhs(&l.rhs))
 }
 
+thread_local! {
+    /// print `!(!(x))` as `!!(x)` (adjacent negations); set by `m_rule`
+    static ADJACENT_NOT: std::cell::Cell<bool> = const { std::cell::Cell::new(false) };
+}
+
 fn m_cond(c: &Cond) -> String {
     fn paren(p: bool, s: String) -> String {
         if p {
@@ -163,7 +168,14 @@ fn m_cond(c: &Cond) -> String {
     }
     match c {
         Cond::Leaf(l) => m_leaf(l),
-        Cond::Not(a) => format!("!{}({}{}{})", P, P, m_cond(a), P),
+        Cond::Not(a) => {
+            if matches!(**a, Cond::Not(_)) && ADJACENT_NOT.with(|f| f.get()) {
+                // stacked negations written with nothing between them: `!!(x)`
+                format!("!{}", m_cond(a))
+            } else {
+                format!("!{}({}{}{})", P, P, m_cond(a), P)
+            }
+        }
         Cond::And(a, b) => {
             let pa = matches!(**a, Cond::Or(..));
             let pb = matches!(**b, Cond::Or(..) | Cond::And(..));
@@ -198,6 +210,18 @@ fn m_action(a: &Action) -> String {
 /// `attr_order`: a permutation seed for the attribute list; `alt_bool`: write `no-loop` /
 /// `lock-on-active` without the `true`.
 pub fn m_rule(r: &RuleAst, attr_perm: u64, bare_bool_attrs: bool) -> String {
+    m_rule_opts(r, attr_perm, bare_bool_attrs, false)
+}
+
+/// `adjacent_not`: write stacked negations as `!!(x)` instead of `!(!(x))`.
+pub fn m_rule_opts(r: &RuleAst, attr_perm: u64, bare_bool_attrs: bool, adjacent_not: bool) -> String {
+    ADJACENT_NOT.with(|f| f.set(adjacent_not));
+    let out = m_rule_inner(r, attr_perm, bare_bool_attrs);
+    ADJACENT_NOT.with(|f| f.set(false));
+    out
+}
+
+fn m_rule_inner(r: &RuleAst, attr_perm: u64, bare_bool_attrs: bool) -> String {
     let mut s = String::from("rule");
     s.push(M);
     if r.quoted_name {
